@@ -39,7 +39,10 @@ CONSTANTS
   MaxB,      \* max items of a batch result
   ErrKinds   \* error shapes of a FAILED batch item: subset of {"full", "empty"}
 
-VARIABLE v
+VARIABLES
+  v,   \* the value under test (one TLC state per value of the grammar)
+  enc, \* Encode(v): the serialized text (token tree) or RejectW            - a function of v
+  res  \* Result(v): RejectW, or Decode(enc): the value read back, or ErrV  - a function of v
 
 -----------------------------------------------------------------------------
 (* Value grammar *)
@@ -81,9 +84,6 @@ Children(x) == CASE x.k \in {"list", "tuple"} -> x.c
                  [] x.k = "dict"  -> [i \in 1..Len(x.e) |-> x.e[i].val]
                  [] x.k = "batch" -> [i \in 1..Len(x.c) |-> x.c[i].r]
                  [] OTHER -> <<>>
-
-RECURSIVE Nodes(_)
-Nodes(x) == {x} \cup UNION {Nodes(Children(x)[i]) : i \in 1..Len(Children(x))}
 
 DictKeys(x) == {x.e[i].key : i \in 1..Len(x.e)}
 
@@ -287,76 +287,96 @@ Decode(text) ==
 (* Specification-level predicates (what the property says, independent of Encode) *)
 
 \* values the serializer is allowed (and expected) to refuse: unsupported leaf, tuple key,
-\* key of a type json cannot write
-Rejects(x) == \E n \in Nodes(x) : \/ n.k = "unsupported"
-                                  \/ n.k = "dict" /\ DictKeys(n) \cap {"#tuple", "#bytes"} # {}
+\* key of a type json cannot write - anywhere inside
+RECURSIVE Rejects(_)
+Rejects(x) == \/ x.k = "unsupported"
+              \/ x.k = "dict" /\ DictKeys(x) \cap {"#tuple", "#bytes"} # {}
+              \/ LET ch == Children(x) IN \E i \in 1..Len(ch) : Rejects(ch[i])
 
-\* KNOWN DEFECT escape: a dict with an int/bool/None/float key somewhere inside
-KnownNonStrKey(x) == \E n \in Nodes(x) : n.k = "dict" /\ DictKeys(n) \cap CoercedKeys # {}
+\* KNOWN DEFECT escape: a dict with an int/bool/None/float key anywhere inside
+RECURSIVE KnownNonStrKey(_)
+KnownNonStrKey(x) == \/ x.k = "dict" /\ DictKeys(x) \cap CoercedKeys # {}
+                     \/ LET ch == Children(x) IN \E i \in 1..Len(ch) : KnownNonStrKey(ch[i])
 
 IsLookAlike(x) == x.k = "dict" /\ {"t", "v"} \subseteq DictKeys(x)
-ContainsLookAlike(x) == \E n \in Nodes(x) : IsLookAlike(n)
+RECURSIVE ContainsLookAlike(_)
+ContainsLookAlike(x) == \/ IsLookAlike(x)
+                        \/ LET ch == Children(x) IN \E i \in 1..Len(ch) : ContainsLookAlike(ch[i])
 
-Result(x) == LET w == Encode(x) IN IF w = RejectW THEN RejectW ELSE Decode(w)
+Result(x) == LET e == Encode(x) IN IF e = RejectW THEN RejectW ELSE Decode(e)
 
-RoundTripInv(x) == Rejects(x) \/ Result(x) = x
-
+\* The properties, as operators over a value x, its text e = Encode(x) and the outcome o = Result(x)
+RoundTrip(x, o) == Rejects(x) \/ o = x
 \* the serializer refuses exactly what it is expected to refuse
-RejectExact(x) == Rejects(x) <=> (Encode(x) = RejectW)
-
-\* outcome is equal value, or an error at serialize or deserialize; never a different value
-NoSilentAlteration(x) == Result(x) \in {x, RejectW, ErrV}
-
+RejectExact(x, e) == Rejects(x) <=> (e = RejectW)
+\* outcome is the equal value, or an error at serialize or deserialize; never a different value
+NoSilentAlteration(x, o) == o \in {x, RejectW, ErrV}
 \* user data shaped like the envelope comes back unchanged
-LookAlikeSafe(x) == (ContainsLookAlike(x) /\ ~Rejects(x)) => Result(x) = x
-
+LookAlikeSafe(x, o) == (ContainsLookAlike(x) /\ ~Rejects(x)) => o = x
 \* the serializer's own output always decodes
-NoDecodeError(x) == Result(x) # ErrV
-
+NoDecodeError(o) == o # ErrV
 \* fast path <=> no envelope at the root of the text
-PlainIffPrimitive(x) == Encode(x) # RejectW => (IsPrimitive(x) <=> ~IsEnvW(Encode(x)))
+PlainIffPrimitive(x, e) == e # RejectW => (IsPrimitive(x) <=> ~IsEnvW(e))
 
 \* "every nested value is individually wrapped": below an envelope root, every array element and
 \* every object member of a container payload is itself an envelope, so _unwrap never returns raw JSON
 RECURSIVE WrappedPayload(_, _)
-WrappedEnv(w) == IsEnvW(w) /\ GetW(w, "t").j = "str" /\ GetW(w, "t").s \in Tags
-                 /\ WrappedPayload(GetW(w, "t").s, GetW(w, "v"))
+WrappedEnv(e) == IsEnvW(e) /\ GetW(e, "t").j = "str" /\ GetW(e, "t").s \in Tags
+                 /\ WrappedPayload(GetW(e, "t").s, GetW(e, "v"))
 WrappedPayload(tag, p) ==
   CASE tag \in {"l", "t"}  -> p.j = "arr" /\ \A i \in 1..Len(p.c) : WrappedEnv(p.c[i])
     [] tag \in {"m", "br"} -> p.j = "obj" /\ \A i \in 1..Len(p.e) : WrappedEnv(p.e[i].val)
     [] OTHER -> p.j \in {"null", "bool", "int", "float", "str"}
-EveryNestedWrapped(x) == (Encode(x) # RejectW /\ ~IsPrimitive(x)) => WrappedEnv(Encode(x))
+EveryNestedWrapped(x, e) == (e # RejectW /\ ~IsPrimitive(x)) => WrappedEnv(e)
+
+\* quantified forms over the whole domain (what TLC checks state by state below)
+RoundTripAll          == \A x \in Val(D) : RoundTrip(x, Result(x)) \/ KnownNonStrKey(x)
+LookAlikeSafeAll      == \A x \in Val(D) : LookAlikeSafe(x, Result(x)) \/ KnownNonStrKey(x)
+NoSilentAlterationAll == \A x \in Val(D) : NoSilentAlteration(x, Result(x)) \/ KnownNonStrKey(x)
 
 -----------------------------------------------------------------------------
-(* TLC: one state per value *)
-Init == v \in Val(D)
-Next == UNCHANGED v
-Spec == Init /\ [][Next]_v
+(* TLC: one state per value.  InitV enumerates exactly Val(D) = Val(D-1) \cup containers over    *)
+(* Val(D-1), written with \E so that TLC streams the states instead of building and sorting the *)
+(* whole set (checks/c15.py compares the state count with the closed formula for |Val(D)|).     *)
+InitV ==
+  IF D = 0 THEN v \in Val(0)
+  ELSE LET S == Val(D - 1) IN
+       \/ v \in S
+       \/ \E m \in 0..MaxW : \E s \in [1..m -> S] : v = [k |-> "list", c |-> s]
+       \/ \E m \in 0..MaxW : \E s \in [1..m -> S] : v = [k |-> "tuple", c |-> s]
+       \/ \E ks \in KeySeqs : \E vs \in [1..Len(ks) -> S] :
+             v = [k |-> "dict", e |-> [i \in 1..Len(ks) |-> [key |-> ks[i], val |-> vs[i]]]]
+       \/ \E m \in 0..MaxB : \E s \in [1..m -> Items(S)] : v = [k |-> "batch", c |-> s, cr |-> "ALL_COMPLETED"]
 
-\* invariants used by the check (RoundTrip with the known-defect escape; everything else without)
-InvRoundTripOrKnown      == RoundTripInv(v) \/ KnownNonStrKey(v)
-InvNoSilentOrKnown       == NoSilentAlteration(v) \/ KnownNonStrKey(v)
-InvLookAlikeSafe         == LookAlikeSafe(v) \/ KnownNonStrKey(v)
-InvRejectExact           == RejectExact(v)
-InvNoDecodeError         == NoDecodeError(v)
-InvPlainIffPrimitive     == PlainIffPrimitive(v)
-InvEveryNestedWrapped    == EveryNestedWrapped(v)
+Init == /\ InitV
+        /\ enc = Encode(v)
+        /\ res = IF enc = RejectW THEN RejectW ELSE Decode(enc)
+Next == UNCHANGED <<v, enc, res>>
+Spec == Init /\ [][Next]_<<v, enc, res>>
+
+\* invariants used by the check (RoundTrip with the known-defect escape; the structural ones without)
+InvRoundTripOrKnown      == RoundTrip(v, res) \/ KnownNonStrKey(v)
+InvNoSilentOrKnown       == NoSilentAlteration(v, res) \/ KnownNonStrKey(v)
+InvLookAlikeSafe         == LookAlikeSafe(v, res) \/ KnownNonStrKey(v)
+InvRejectExact           == RejectExact(v, enc)
+InvNoDecodeError         == NoDecodeError(res)
+InvPlainIffPrimitive     == PlainIffPrimitive(v, enc)
+InvEveryNestedWrapped    == EveryNestedWrapped(v, enc)
 \* the escape is exact: every value with a coerced key that is not rejected IS altered
-InvKnownIsReal           == (KnownNonStrKey(v) /\ ~Rejects(v)) => Result(v) # v
+InvKnownIsReal           == (KnownNonStrKey(v) /\ ~Rejects(v)) => res # v
 
 \* probe (Codec_probe.cfg): without the escape the known scenario must be reachable
-InvRoundTripNoEscape     == RoundTripInv(v)
+InvRoundTripNoEscape     == RoundTrip(v, res)
 \* Codec_err.cfg: the batch item whose ErrorObject has every field None
-InvEmptyErrorRoundTrip   == RoundTripInv(v) \/ KnownNonStrKey(v)
+InvEmptyErrorRoundTrip   == RoundTrip(v, res) \/ KnownNonStrKey(v)
 
 \* test vectors for binding G: one JSON line per state
-Vector(x) == [shape |-> x,
-              path |-> IF Encode(x) = RejectW THEN "reject" ELSE IF IsPrimitive(x) THEN "plain" ELSE "envelope",
-              rt |-> (Result(x) = x),
-              known |-> KnownNonStrKey(x),
-              look |-> ContainsLookAlike(x),
-              dec |-> IF Result(x) = x THEN [same |-> TRUE] ELSE Result(x)]
-VectorW(x) == [vec |-> Vector(x), wire |-> Encode(x)]
-DumpInv  == PrintT(ToJson(Vector(v)))
-DumpWireInv == PrintT(ToJson(VectorW(v)))
+Vector == [shape |-> v,
+           path |-> IF enc = RejectW THEN "reject" ELSE IF IsPrimitive(v) THEN "plain" ELSE "envelope",
+           rt |-> (res = v),
+           known |-> KnownNonStrKey(v),
+           look |-> ContainsLookAlike(v),
+           dec |-> IF res = v THEN [same |-> TRUE] ELSE res]
+DumpInv  == PrintT(ToJson(Vector))
+DumpWireInv == PrintT(ToJson([vec |-> Vector, wire |-> enc]))
 =============================================================================
